@@ -437,6 +437,13 @@ def _labels(flags, prefix):
     return {x[len(prefix):] for x in flags if x.startswith(prefix)}
 
 
+def _cols(flags, kind: str) -> set:
+    """column labels 'a:b' of a value read from a V2000 line of that kind, each replaced by the span of the format's field it
+    reads (blank columns around a field do not count, spec.canon_span)"""
+    from .spec import canon_label
+    return {canon_label(kind, c[1:-1]) for c in _labels(flags, "@col")}
+
+
 @rule("R-PROV")
 def r_prov(ctx) -> RuleResult:
     res = RuleResult("R-PROV", "identity attributes (symbol, atomic number, mass, rad) and chg receive values only from their own fields: symbol column / type token, charge-code column, matching M  CHG/RAD/ISO entries or CHG=/MASS=/RAD= tokens")
@@ -447,13 +454,14 @@ def r_prov(ctx) -> RuleResult:
     allowed_atom = {"element_symbol": {sym}, "atomic_number": {sym}, "mass": {sym}, "chg": {ccc}, "rad": {ccc}}
     for ev in _uniq_events(I.events, "store"):
         sw = _labels(ev.flags, "@sw:")
-        cols = {c[1:-1] for c in _labels(ev.flags, "@col")}
+        cols = _cols(ev.flags, "atom")
         if v2000_store_kind(ev.flags) == "unknown":
             raise AnalysisError(f"R-PROV: V2000: cannot tell whether `{short(ev.node, 60)}` stores `{ev.key}` from the atom line or from a property line "
                                 f"(columns {sorted(cols)}, no line-kind test on the path)")
         if sw:
             want = V2000_PROP_OF.get(ev.key)
-            ok = want is not None and sw == {want}
+            from .spec import tag_selected_by
+            ok = want is not None and {tag_selected_by(x) for x in sw} == {want}
             why = f"value from `{sorted(sw)}` lines stored under `{ev.key}`" + ("" if ok else f" (only {want!r} entries may set it)")
         else:
             ok = cols <= allowed_atom.get(ev.key, set())
@@ -700,7 +708,7 @@ def r_cols(ctx) -> RuleResult:
     want_fields = {"x_coord": {span(V2000_ATOM["x"])}, "y_coord": {span(V2000_ATOM["y"])}, "z_coord": {span(V2000_ATOM["z"])},
                    "element_symbol": {span(V2000_ATOM["symbol"])}}
     for k, want in want_fields.items():
-        got = {c[1:-1] for c in _labels(taint(rec.fields.get(k)), "@col")}
+        got = _cols(taint(rec.fields.get(k)), "atom")
         if not got:
             toks = {c[1:-1] for c in _labels(taint(rec.fields.get(k)), "@idx")} | {c[1:-1] for c in _labels(taint(rec.fields.get(k)), "@toks")}
             if toks:
@@ -722,7 +730,7 @@ def r_cols(ctx) -> RuleResult:
         if ev.key in ("chg", "rad") and v2000_store_kind(ev.flags) == "unknown":
             raise AnalysisError(f"R-COLS: cannot tell whether `{short(ev.node, 60)}` stores `{ev.key}` from the atom line or from a property line")
         if ev.key in ("chg", "rad") and v2000_store_kind(ev.flags) == "atom":
-            got = {c[1:-1] for c in _labels(ev.flags, "@col")}
+            got = _cols(ev.flags, "atom")
             ok = got == {span(V2000_ATOM["ccc"])}
             res.inst(ev.fi.fq, f"atom line: charge code read from columns {sorted(got)}", "ok" if ok else "fail")
             if not ok:
@@ -731,8 +739,8 @@ def r_cols(ctx) -> RuleResult:
     brec = bonds.elem if bonds.kind == "map" else None
     if brec is None or brec.kind != "rec":
         raise AnalysisError("R-COLS: cannot see V2000 bond records")
-    got = {c[1:-1] for c in _labels(taint(brec.fields.get("bond_type")), "@col")}
-    got_ends = {c[1:-1] for c in _labels(bonds.keyt, "@col")}
+    got = _cols(taint(brec.fields.get("bond_type")), "bond")
+    got_ends = _cols(bonds.keyt, "bond")
     if not got and not got_ends:
         # no column subscripts at all: are the fields taken out of the line by a pattern?
         dec = block_decoder(ctx, "V2000", 1)
@@ -839,7 +847,7 @@ def _check_v2000_counts(ctx, fi: FuncInfo, res: RuleResult):
     from ..model import ConstEval, NotConst
     A, B, L = 5, 7, 2
     sent = {(0, 3): A, (3, 6): B, (6, 9): L}
-    bad_span, blocks = [], []
+    bad_span, blocks, header_reads = [], [], []
 
     class _Opaque:
         """result of a decoder: a table nobody looks into here (hashable, iterates as empty, absorbs updates)"""
@@ -878,9 +886,17 @@ def _check_v2000_counts(ctx, fi: FuncInfo, res: RuleResult):
         if any(isinstance(a, _SymField) for a in allargs):
             fld = next(a for a in allargs if isinstance(a, _SymField))
             if fld.k == 3:
-                if (fld.lo, fld.hi) in sent:
-                    return sent[(fld.lo, fld.hi)]
+                from .spec import canon_span
+                if canon_span("counts", fld.lo, fld.hi) in sent:
+                    return sent[canon_span("counts", fld.lo, fld.hi)]
+                if 6 <= fld.lo and fld.hi is not None and fld.hi <= 9:
+                    # some of the digits of the atom-list count: a number that is not larger than the count.  It only says
+                    # where the property scan may begin, and beginning earlier is harmless (checked below)
+                    return 0
                 bad_span.append((f, fld.lo, fld.hi))
+                return 0
+            if isinstance(fld.k, int) and fld.k < 3:
+                header_reads.append((f, fld.k, fld.lo, fld.hi))
                 return 0
             raise NotConst("field of a data line")
         if any(isinstance(a, (_SymBlock, _SymDataLine)) for a in allargs):
@@ -904,6 +920,12 @@ def _check_v2000_counts(ctx, fi: FuncInfo, res: RuleResult):
         ce.call_function(fi, [_SymLines()], {})
     except (NotConst, TypeError, KeyError, IndexError, ValueError, AttributeError) as ex:
         raise AnalysisError(f"R-COLS: cannot evaluate how {fi.qualname} cuts the file into blocks ({type(ex).__name__}: {ex})")
+    for f, k_, lo, hi in header_reads:
+        res.inst(fi.fq, f"lines[{k_}][{lo}:{hi}] read by {f.name}", "fail")
+        res.fail(Finding("R-COLS", fi.module.rel, fi.qualname, f"lines[{k_}][{lo}:{hi}]",
+                         f"a number is read from line {k_ + 1} of the file, one of the three free-text header lines (title, program, comment); the counts are on line 4", line=fi.node.lineno))
+    if header_reads:
+        return
     for f, lo, hi in bad_span:
         res.inst(fi.fq, f"counts line field [{lo}:{hi}] read by {f.name}", "fail")
         res.fail(Finding("R-COLS", fi.module.rel, fi.qualname, f"lines[3][{lo}:{hi}]", f"counts-line slice {lo}:{hi} is not one of the fields aaa (0:3), bbb (3:6), lll (6:9)", line=fi.node.lineno))
@@ -922,8 +944,10 @@ def _check_v2000_counts(ctx, fi: FuncInfo, res: RuleResult):
             ok = (lo, hi) == want[role]
             why = f"{role} block = lines[{lo}:{hi}] for counts (5 atoms, 7 bonds, 2 lists); format: lines[{want[role][0]}:{want[role][1]}]"
         else:
-            ok = lo is not None and hi is None and 4 + A <= lo <= 4 + A + B + L
-            why = f"property scan starts at line {lo} for counts (5, 7, 2); must start within [{4 + A}, {4 + A + B + L}] and run to the end"
+            # atom, bond and atom-list lines cannot begin with `M  ` (they begin with a number field), so the scan may start
+            # anywhere after the counts line and at the latest where the property lines begin; header lines are free text
+            ok = lo is not None and hi is None and 4 <= lo <= 4 + A + B + L
+            why = f"property scan starts at line {lo} for counts (5, 7, 2); must start within [4, {4 + A + B + L}] and run to the end"
         res.inst(fi.fq, f"lines[{lo}:{hi if hi is not None else ''}] -> {callee}", "ok" if ok else "fail", detail=why)
         if not ok:
             res.fail(Finding("R-COLS", fi.module.rel, fi.qualname, f"lines[{lo}:{hi if hi is not None else ''}] -> {callee}", why, line=fi.node.lineno))
@@ -963,7 +987,9 @@ def _check_prop_entries(ctx, f: FuncInfo, res: RuleResult):
             for s in slices:
                 lo = _int_or_none(s.slice.lower, env) if s.slice.lower else 0
                 hi = _int_or_none(s.slice.upper, env) if s.slice.upper else None
-                spans.setdefault(norm(s), (s, []))[1].append((lo, hi))
+                from .spec import canon_span
+                c_lo, c_hi = canon_span("prop", lo - 8 * iv, hi - 8 * iv) if isinstance(lo, int) and isinstance(hi, int) else (lo, hi)
+                spans.setdefault(norm(s), (s, []))[1].append((c_lo + 8 * iv, c_hi + 8 * iv) if isinstance(c_lo, int) and isinstance(c_hi, int) else (lo, hi))
         atom_want = [(V2000_PROP["entry_offset"] + V2000_PROP["entry_len"] * k + V2000_PROP["atom"][0],
                       V2000_PROP["entry_offset"] + V2000_PROP["entry_len"] * k + V2000_PROP["atom"][1]) for k in range(8)]
         val_want = [(V2000_PROP["entry_offset"] + V2000_PROP["entry_len"] * k + V2000_PROP["value"][0],
@@ -981,7 +1007,8 @@ def _check_prop_entries(ctx, f: FuncInfo, res: RuleResult):
                 if sl is not None:
                     lo = _int_or_none(sl.slice.lower, {}) if sl.slice.lower else 0
                     hi = _int_or_none(sl.slice.upper, {})
-                    ok = (lo, hi) == V2000_PROP["nn8"]
+                    from .spec import canon_span
+                    ok = canon_span("prop", lo, hi) == V2000_PROP["nn8"]
                     res.inst(f.fq, f"entry count `{short(st)}`", "ok" if ok else "fail")
                     if not ok:
                         res.fail(Finding("R-COLS", f.module.rel, f.qualname, norm(st), f"entry count is read at {lo}:{hi}, the format has it at 6:9", line=st.lineno))
@@ -1326,26 +1353,33 @@ def r_supersede(ctx) -> RuleResult:
     if i0 is None:
         raise AnalysisError("R-SUPERSEDE: cannot find the statement of the property-block function that scans the lines")
 
-    def follow(smp):
+    def follow(smp, atoms=None):
         """(statements executed on every way through, gaps) when the property-block function is followed on the block
-        [smp, 'M  END']; None for the statements if every way through ends in a raise"""
+        [smp, 'M  END']; None for the statements if every way through ends in a raise.  With a sample atom table for the
+        (one) other parameter: (the tables at the ends of the ways through, gaps)"""
         import copy
         pe = PathEval(callable_funcs)
         env = copy.deepcopy(consts)
+        others = [p_ for p_ in params_of(fn) if p_ not in scanned]
+        if atoms is not None and len(others) != 1:
+            return None, ["the property-block function takes more than the lines and the atom table"]
+        block_ = (list(smp) if isinstance(smp, (list, tuple)) else [smp]) + ["M  END"]
         for p_ in params_of(fn):
-            env[p_] = [smp, "M  END"] if p_ in scanned else UNKNOWN
+            env[p_] = list(block_) if p_ in scanned else (copy.deepcopy(atoms) if atoms is not None else UNKNOWN)
         # what precedes the scan works on the file as a whole (unknown here); the scan itself sees the sample block
         states, lefts = pe.block(fn.body[:i0], [PState(env)])
         if lefts and not states:
             return None, pe.gaps or ["the statements in front of the scan leave the function"]
         for st_ in states:
             for nm in scanned:
-                st_.env[nm] = [smp, "M  END"]
+                st_.env[nm] = list(block_)
         pe.gaps = []
         falls, lefts2 = pe.block(fn.body[i0:], states)
         ends = [st_ for st_ in falls] + [st_ for st_, how, _v in lefts2 if how == "return"]
         if not ends:
             return None, pe.gaps
+        if atoms is not None:
+            return [st_.env.get(others[0]) for st_ in ends], pe.gaps
         tr = None
         for st_ in ends:
             tr = set(st_.trace) if tr is None else tr & st_.trace
@@ -1407,6 +1441,39 @@ def r_supersede(ctx) -> RuleResult:
                             if bool(ceval(test, env2)) != pol:
                                 return False, f"`{short(test, 40)}` is {not pol} after the line {smp!r}"
         return True, ""
+    # what the block does to a sample atom table, for the cases the property names: entries over several lines accumulate, a
+    # later entry for the same atom wins, masses from D / T stay unless an ISO entry names the atom, an explicit 0 is no entry
+    mass_k = ctx.repo.const("tucan.graph_attributes", "MASS")
+    cases = [
+        (["M  ISO  1   1  13", "M  ISO  1   2  14"], {0: {}, 1: {}}, {0: {mass_k: 13}, 1: {mass_k: 14}}, "isotope entries on two lines"),
+        (["M  ISO  2   1  13   2  14"], {0: {}, 1: {}}, {0: {mass_k: 13}, 1: {mass_k: 14}}, "two isotope entries on one line"),
+        (["M  CHG  1   2  -1"], {0: {chg_k: 1, rad_k: 2}, 1: {}}, {0: {}, 1: {chg_k: -1}}, "a charge line supersedes the charge codes"),
+        (["M  RAD  1   2   3"], {0: {chg_k: 1}, 1: {}}, {0: {}, 1: {rad_k: 3}}, "a radical line supersedes the charge codes"),
+        (["M  CHG  1   1   1", "M  RAD  1   2   2"], {0: {mass_k: 2}, 1: {}}, {0: {mass_k: 2, chg_k: 1}, 1: {rad_k: 2}}, "the mass of a D atom stays when other lines are there"),
+        (["M  ISO  1   1   3"], {0: {mass_k: 2}, 1: {}}, {0: {mass_k: 3}, 1: {}}, "an isotope entry overrides the mass of a D atom"),
+        (["M  CHG  2   1   1   2  -1", "M  CHG  1   1   2"], {0: {}, 1: {}}, {0: {chg_k: 2}, 1: {chg_k: -1}}, "a later entry for the same atom wins"),
+        (["M  CHG  1   1   0"], {0: {chg_k: 1}, 1: {}}, {0: {}, 1: {}}, "an explicit 0 is no entry (and the line still supersedes)"),
+    ]
+    n_followed = 0
+    for lines_, atoms_in, want_, what_ in cases:
+        tables, gaps = follow(lines_, atoms_in)
+        if tables is None and not gaps:
+            res.inst(pf.fq, f"{what_}: {lines_} on {atoms_in} gives {want_}", "fail")
+            res.fail(Finding("R-SUPERSEDE", pf.module.rel, pf.qualname, f"{what_}: {lines_} rejected",
+                             f"following the well-formed property block {lines_ + ['M  END']} ends in a raise on every way through: a file the format allows is rejected", line=fn.lineno))
+            break
+        if tables is None or gaps or not all(isinstance(t_, dict) for t_ in tables):
+            continue
+        n_followed += 1
+        wrong = [t_ for t_ in tables if t_ != want_]
+        res.inst(pf.fq, f"{what_}: {lines_} on {atoms_in} gives {want_}", "fail" if wrong and len(wrong) == len(tables) else "ok")
+        if wrong and len(wrong) == len(tables):
+            res.fail(Finding("R-SUPERSEDE", pf.module.rel, pf.qualname, f"{what_}: {lines_}",
+                             f"{what_}: following the property block {lines_} on the atom table {atoms_in} ends with {wrong[0]}, the format says {want_}", line=fn.lineno))
+            break
+    res.counts = dict(res.counts or {}, sample_blocks_followed=n_followed)
+    if res.findings:
+        return res          # shown on a sample; the clauses below could only add 'cannot tell'
     killed_when = {chg_k: False, rad_k: False}
     why_not = {}
     conds = {}
@@ -1426,6 +1493,21 @@ def r_supersede(ctx) -> RuleResult:
             killed_when[k["key"]] = True
         else:
             why_not[k["key"]] = why
+    # ... and from nothing else: a block without a CHG / RAD line leaves the atom block's charge codes alone.  Followed on a
+    # sample atom table whose first atom carries a charge and a radical from its charge code
+    sample_atoms = {0: {chg_k: 1, rad_k: 2}, 1: {}}
+    for smp in ("M  ISO  1   1  13", "M  STY  1   1 SUP", "M  END"):
+        tables, gaps = follow(smp, sample_atoms)
+        if tables is None or gaps or not all(isinstance(t_, dict) and isinstance(t_.get(0), dict) for t_ in tables):
+            continue
+        lost = [k_ for k_ in (chg_k, rad_k) if all(k_ not in t_[0] for t_ in tables)]
+        res.inst(pf.fq, f"a property block that is just `{smp}` leaves the atom block's charge and radical in place", "fail" if lost else "ok")
+        if lost:
+            k0 = next((k for k in kills if k["key"] in lost), kills[0] if kills else None)
+            res.fail(Finding("R-SUPERSEDE", (k0["func"] if k0 else pf).module.rel, (k0["func"] if k0 else pf).qualname, f"{lost} removed without a CHG / RAD line",
+                             f"{lost} of the atom block's charge code are gone after a property block that holds no CHG or RAD line (followed on the block `{smp}` "
+                             f"with a first atom that carries {chg_k}=1, {rad_k}=2): charges and radicals given by the charge code are lost", line=(k0["node"].lineno if k0 else pf.node.lineno)))
+            break
     if not all(killed_when.values()) and unnamed and not why_not:
         raise AnalysisError(f"R-SUPERSEDE: cannot tell which attribute {unnamed[0]} removes")
     ok = all(killed_when.values())
@@ -1778,6 +1860,10 @@ def r_splice(ctx) -> RuleResult:
         raise AnalysisError("R-SPLICE: the V3000 reader has no continuation-line splicer (see R-ORDERING)")
     sp = sm["func"]
     conts, prefixes = sorted(sm["conts"]), sorted(sm["prefixes"])
+    from .spec import V3000_LINE_PREFIX
+    # the tests for the prefix may leave out its trailing blank (every line of the table has it); what is cut off is the prefix
+    if prefixes and all(V3000_LINE_PREFIX.startswith(p_) and p_.rstrip() == V3000_LINE_PREFIX.rstrip() for p_ in prefixes):
+        prefixes = [V3000_LINE_PREFIX]
     if len(conts) != 1 or len(prefixes) != 1:
         raise AnalysisError(f"R-SPLICE: continuation character {conts} / line prefix {prefixes} of the splicer are not unique")
     clen, plen = len(conts[0]), len(prefixes[0])
